@@ -307,6 +307,9 @@ func (cr *chainRun) run() {
 func chainCase(r *lib.Run, caseIdx, idx int) {
 	rng := lib.Rng("C02/chain", uint64(idx))
 	opts := chain.Opts{NoNoopZero: lib.Avoid("noop-zero-write"), EventRich: rng.IntN(3) == 0, EmptyProb: 0.08}
+	if idx%3 == 0 {
+		opts.Versions = []string{"0.13.2", "0.13.4"} // keeps the 0.13.2 block format represented
+	}
 	length := 6 + rng.IntN(5)
 	perOp := 1
 	if !r.Quick() {
